@@ -6,7 +6,7 @@ import icontract
 from vfw.hlib import Tag, conc, drive, note, untraced
 from vfw.hspec import H, I, bind
 
-MISUSE = ["param__ARGS", "param__KWARGS", "kwarg__ARGS_at_call", "kwarg__KWARGS_at_call", "param_result_with_post",
+MISUSE = ["kwonly_param__ARGS", "kwonly_param__KWARGS", "varkw_param__KWARGS", "varpos_param__ARGS", "param__ARGS", "param__KWARGS", "kwarg__ARGS_at_call", "kwarg__KWARGS_at_call", "param_result_with_post",
           "param_OLD_with_post", "param_result_pre_only_is_fine", "invariant_condition_extra_param",
           "invariant_condition_other_param", "invariant_coroutine_condition", "invariant_condition_returns_coroutine", "snapshot_on_bare", "snapshot_above_pre_only",
           "error_int", "error_str", "error_non_exception_class", "error_object", "error_list"]
@@ -53,6 +53,18 @@ def _check(m: str, deco: str, target: str) -> Tuple[str, bool]:
         r = fn(*a, **k)
         return drive(r) if is_async else r
 
+    if m in ("kwonly_param__ARGS", "kwonly_param__KWARGS", "varkw_param__KWARGS", "varpos_param__ARGS"):
+        if deco == "invariant" or target == "property_getter":
+            return "n/a", True
+        name = "_ARGS" if m.endswith("_ARGS") else "_KWARGS"
+        sig = {"kwonly_param__ARGS": "x, *, _ARGS=()", "kwonly_param__KWARGS": "x, *, _KWARGS=None",
+               "varkw_param__KWARGS": "x, **_KWARGS", "varpos_param__ARGS": "x, *_ARGS"}[m]
+        bare = _mk(sp + sig, is_async)
+        try:
+            apply(bare)
+        except TypeError as err:
+            return "TypeError at decoration", name in str(err)
+        return "accepted", False
     if m in ("param__ARGS", "param__KWARGS"):
         if deco == "invariant" or target == "property_getter":
             return "n/a", True
